@@ -27,6 +27,10 @@ func init() {
 				}
 				checkThreadedState(p, r, "R15j", es, 2)
 			}},
+			{ID: "R15k", Statement: "the tracker's simulation of overwritten empty roots agrees with the verifier's", Run: func(p *Program, r *Report) {
+				r.Rule("R15k", "SIBLING-SIMULATIONS-AGREE: the tracker's and the verifier's simulation of the empty roots that additions write over have the same control structure over their inputs (early exits, loop bounds, the test under which a position is recorded)")
+				checkSiblingSimulations(p, r, "R15k", "rootsToDestory", "rootInfoToDestroy")
+			}},
 			{ID: "R15i", Statement: "the memory limit bounds, it does not size", Run: func(p *Program, r *Report) {
 				r.Rule("R15i", "LIMIT-NOT-ALLOCATED: no allocation of the schedule generator is sized by its memory-limit parameter (the property ranges over limits up to unbounded)")
 				checkLimitNotAllocated(p, r, "R15i")
